@@ -602,18 +602,12 @@ Proof.
   - rewrite String.eqb_refl. now rewrite (IH dflt vals Lv Ld Hr).
 Qed.
 
-Lemma has_attr_lossless : forall n l, harmless_attr n = false -> forallb attr_lossless l = true -> has_attr n l = false.
+Lemma lossless_no_skip : forall f, field_lossless f = true ->
+  skips_ser (fd_attrs f) = false /\ skips_de (fd_attrs f) = false.
 Proof.
-  intros n l Hn Hl. unfold has_attr. apply Bool.not_true_is_false. intro E.
-  apply existsb_exists in E as [a [Ha Ea]]. apply String.eqb_eq in Ea.
-  rewrite forallb_forall in Hl. specialize (Hl a Ha). unfold attr_lossless in Hl. rewrite Ea in Hl. congruence.
-Qed.
-
-Lemma lossless_no_skip : forall l, forallb attr_lossless l = true -> skips_ser l = false /\ skips_de l = false.
-Proof.
-  intros l H. unfold skips_ser, skips_de.
-  rewrite (has_attr_lossless "skip" l eq_refl H), (has_attr_lossless "skip_serializing" l eq_refl H),
-          (has_attr_lossless "skip_deserializing" l eq_refl H). split; reflexivity.
+  intros f H. unfold field_lossless, field_pos_static, f_read in H.
+  repeat (apply andb_prop in H as [H ?]).
+  split; now apply negb_true_iff.
 Qed.
 
 Lemma merge_no_skip : forall fds dflt vals,
@@ -762,8 +756,8 @@ Lemma lossless_variants_roundtrip : forall vs p v,
 Proof.
   intros vs p v Hl Hn.
   assert (Hall : forall w, In w vs -> skips_ser (vd_attrs w) = false /\ skips_de (vd_attrs w) = false).
-  { intros w Hw. rewrite forallb_forall in Hl. specialize (Hl w Hw). unfold variant_lossless in Hl.
-    apply andb_prop in Hl as [Ha _]. now apply lossless_no_skip. }
+  { intros w Hw. rewrite forallb_forall in Hl. specialize (Hl w Hw). unfold variant_lossless, variant_pos_static in Hl.
+    repeat (apply andb_prop in Hl as [Hl ?]). split; now apply negb_true_iff. }
   destruct (Hall v (nth_error_In _ _ Hn)) as [Hs Hd].
   apply (variant_roundtrip_iff vs p v Hn Hs Hd).
   intros j w _ Hw. exact (proj2 (Hall w (nth_error_In _ _ Hw))).
@@ -798,8 +792,8 @@ Lemma declared_struct_roundtrip : forall d k fds vals dflt ss rest,
 Proof.
   intros d k fds vals dflt ss rest Hd Hb Lv Ld Hs.
   apply lossless_struct_wire_roundtrip; try assumption.
-  pose proof (declared_lossless_in d Hd) as Hl. unfold lossless_decl in Hl. rewrite Hb in Hl.
-  now apply andb_prop in Hl as [_ Hl].
+  pose proof (declared_lossless_in d Hd) as Hl. unfold lossless_decl, lossless_decl_pos in Hl. rewrite Hb in Hl.
+  apply andb_prop in Hl as [Hl _]. now apply andb_prop in Hl as [_ Hl].
 Qed.
 
 Lemma declared_enum_roundtrip : forall d vs p v,
@@ -807,8 +801,8 @@ Lemma declared_enum_roundtrip : forall d vs p v,
   exists i, ser_variant vs p = Some i /\ de_variant vs i = Some p.
 Proof.
   intros d vs p v Hd Hb Hn. apply (lossless_variants_roundtrip vs p v); [| exact Hn].
-  pose proof (declared_lossless_in d Hd) as Hl. unfold lossless_decl in Hl. rewrite Hb in Hl.
-  now apply andb_prop in Hl as [_ Hl].
+  pose proof (declared_lossless_in d Hd) as Hl. unfold lossless_decl, lossless_decl_pos in Hl. rewrite Hb in Hl.
+  apply andb_prop in Hl as [Hl _]. apply andb_prop in Hl as [_ Hl]. now apply andb_prop in Hl as [_ Hl].
 Qed.
 
 (* ------------------------------------------------------------------ witnesses / non-vacuity *)
@@ -843,7 +837,7 @@ Example ex_untyped_collision : encode (VInt U32 1%Z) = encode (VF32 1) /\ VInt U
 Proof. split; [vm_compute; reflexivity | discriminate]. Qed.
 
 Definition ex_fields : list field_decl :=
-  [mkF "a" "a" "bool" []; mkF "f" "f" "Option<fn()>" [("skip", "")]; mkF "g" "g" "bool" [("bound", "x")]].
+  [mkF "a" "a" ["a"] "bool" []; mkF "f" "f" ["f"] "Option<fn()>" [("skip", "")]; mkF "g" "g" ["g"] "bool" [("bound", "x")]].
 Example ex_skip_default_survives :
   de_fields ex_fields [VBool false; VNone; VBool false] (ser_fields ex_fields [VBool true; VNone; VBool true])
   = Some [VBool true; VNone; VBool true].
@@ -858,19 +852,19 @@ Proof. repeat constructor. Qed.
 (** the shape of `linfa::Error` as found in the repository when this development was written:
     a skipped variant in the middle *)
 Definition ex_error_variants : list variant_decl :=
-  [mkV ("Param" ++ "eters") ("Param" ++ "eters") KNewtype [] [mkF "0" "0" "String" []];
-   mkV "Priors" "Priors" KNewtype [] [mkF "0" "0" "String" []];
-   mkV "NotConverged" "NotConverged" KNewtype [] [mkF "0" "0" "String" []];
-   mkV "NdShape" "NdShape" KNewtype [("skip", "")] [mkF "0" "0" "ShapeError" []];
-   mkV "NotEnoughSamples" "NotEnoughSamples" KUnit [] [];
-   mkV "MismatchedShapes" "MismatchedShapes" KTuple [] [mkF "0" "0" "usize" []; mkF "1" "1" "usize" []]].
+  [mkV ("Param" ++ "eters") ("Param" ++ "eters") ["Param" ++ "eters"] KNewtype [] [mkF "0" "0" ["0"] "String" []];
+   mkV "Priors" "Priors" ["Priors"] KNewtype [] [mkF "0" "0" ["0"] "String" []];
+   mkV "NotConverged" "NotConverged" ["NotConverged"] KNewtype [] [mkF "0" "0" ["0"] "String" []];
+   mkV "NdShape" "NdShape" ["NdShape"] KNewtype [("skip", "")] [mkF "0" "0" ["0"] "ShapeError" []];
+   mkV "NotEnoughSamples" "NotEnoughSamples" ["NotEnoughSamples"] KUnit [] [];
+   mkV "MismatchedShapes" "MismatchedShapes" ["MismatchedShapes"] KTuple [] [mkF "0" "0" ["0"] "usize" []; mkF "1" "1" ["1"] "usize" []]].
 Example ex_middle_skip_shifts :
   ser_variant ex_error_variants 4 = Some 4%N /\ de_variant ex_error_variants 4 = Some 5%nat
   /\ ser_variant ex_error_variants 5 = Some 5%N /\ de_variant ex_error_variants 5 = None
   /\ ser_variant ex_error_variants 3 = None /\ de_variant ex_error_variants 2 = Some 2%nat.
 Proof. vm_compute. repeat split; reflexivity. Qed.
 Example ex_last_skip_is_stable :
-  index_stable (firstn 3 ex_error_variants ++ skipn 4 ex_error_variants ++ [nth 3 ex_error_variants (mkV "" "" KUnit [] [])]) = true
+  index_stable (firstn 3 ex_error_variants ++ skipn 4 ex_error_variants ++ [nth 3 ex_error_variants (mkV "" "" [] KUnit [] [])]) = true
   /\ index_stable ex_error_variants = false.
 Proof. vm_compute. split; reflexivity. Qed.
 
